@@ -18,6 +18,8 @@ CHECKS = {
          "Every value (all 78 NGAP message types, 24 transfer containers, exhaustive small primitive schemas at several bit offsets) that the real encoder handles is exported as a typed tree with its constraints; TLC evaluates Per!PerEncode on it and demands byte equality, and demands refusal for values violating their constraints."),
  "C04": ("TLA+ trace validation with TLC: decoded tree = encoded tree, re-encode = reference bytes (Per.tla)",
          "For the same generated values the real decoder's output tree must equal the encoded tree and the re-encoding must equal the bytes, which TLC has shown equal to the independent X.691 encoder's output (Per!PerEncode), so every such case is also a canonical encoding from an independent encoder."),
+ "C13": ("TLA+ trace validation with TLC: builder output decoded by the spec's X.691 decoder (Per!PerDecode) and judged against TS 38.413 tables in Ngap.tla",
+         "Every builder's bytes are decoded inside TLC with an independent PER decoder and must be the TS 38.413 message (class, procedure code, criticality, clause 9.2 IE table for the emulator's messages) carrying exactly the recorded arguments; out-of-range identifiers must be refused; 303/303 single-argument corruptions of a recorded trace are rejected."),
 }
 NA = {}
 def main():
